@@ -375,6 +375,38 @@ def r4_lifecycle(ctx):
             ctx.check(ok, f"{q}: SIG is a copy of the `sig` that reaches the serial loop (no rebinding in between)", w)
 
 
+def r4b_shared_buffer_io(ctx):
+    """the parent writes a shared RawArray through the same kind of numpy view the workers read it with (np.frombuffer, float64):
+    a raw byte copy would reinterpret a non-float64 input"""
+    fn = ctx.src.func(SRS, "copyToSharedArray")
+    views = {}
+    for st in walk_no_nested(fn):
+        if isinstance(st, ast.Assign) and isinstance(st.targets[0], ast.Name):
+            for c in ast.walk(st.value):
+                if isinstance(c, ast.Call) and dotted(c.func) == "np.frombuffer" and c.args and isinstance(c.args[0], ast.Name):
+                    dt = [k for k in c.keywords if k.arg == "dtype"] + list(c.args[1:2])
+                    views[st.targets[0].id] = (c.args[0].id, ast.unparse(dt[0].value if isinstance(dt[0], ast.keyword) else dt[0]) if dt else None)
+    stores = [st for st in walk_no_nested(fn) if isinstance(st, ast.Assign) and isinstance(st.targets[0], ast.Subscript)
+              and isinstance(st.targets[0].value, ast.Name) and st.targets[0].value.id in views]
+    ok = len(stores) == 1 and ast.unparse(stores[0].value) == fn.args.args[0].arg and views[stores[0].targets[0].value.id][1] in (None, "float", "np.float64")
+    ctx.check(ok, "copyToSharedArray fills the shared buffer by assigning the input to a float64 np.frombuffer view (numpy converts the dtype)", fn,
+              {"views": views, "stores": [ast.unparse(s) for s in stores]})
+    raw = [ast.unparse(c.func) for c in ast.walk(fn) if isinstance(c, ast.Call) and (dotted(c.func) or "").split(".")[-1] in
+           ("memmove", "memcpy", "memset", "from_buffer_copy", "tobytes", "frombytes")]
+    ctx.check(not raw, "copyToSharedArray performs no raw byte copy into the shared buffer", fn, raw)
+    ra = [c for c in ast.walk(fn) if isinstance(c, ast.Call) and dotted(c.func) == "mp.RawArray"]
+    ok = len(ra) == 1 and ast.unparse(ra[0].args[0]) == "ctype" and ast.unparse(ra[0].args[1]).replace(" ", "") == "arr.size"
+    dflt = fn.args.defaults
+    ok = ok and len(dflt) == 1 and ast.unparse(dflt[0]) == "ctypes.c_double"
+    ctx.check(ok, "copyToSharedArray allocates arr.size c_double elements", fn)
+    # readers: every initializer view is np.frombuffer(x[0]).reshape(x[1]) with the default (float64) dtype
+    for rel, q in ((SRS, "_mk_par_globals"), (SRS, "_mk_par_globals_ic"), (FDE, "_to_np_array")):
+        f2 = ctx.src.func(rel, q)
+        calls = [c for c in ast.walk(f2) if isinstance(c, ast.Call) and dotted(c.func) == "np.frombuffer"]
+        ok = bool(calls) and all(len(c.args) == 1 and not c.keywords for c in calls)
+        ctx.check(ok, f"{q}: shared buffers are read through default-dtype (float64) np.frombuffer views", f2)
+
+
 def _block_of(st):
     p = parent(st)
     for fld in ("body", "orelse", "finalbody"):
@@ -545,6 +577,7 @@ RULES = [
     ("C09-R2", r2_readonly, 10),
     ("C09-R3", r3_no_other_channel, 20),
     ("C09-R4", r4_lifecycle, 30),
+    ("C09-R4b", r4b_shared_buffer_io, 6),
     ("C09-R5", r5_serial_equals_worker, 20),
 ]
 LEVEL = "proof"
